@@ -133,6 +133,147 @@ def run_declarators(ck, wd, bdir, n, depth, tag):
                                  {"decl.h": PRELUDE + "// CHECK: x\n" + d["written"] + "\n", "check.cpp": one}, err1[-2000:])
 
 
+XPRELUDE = PRELUDE + ("template<class T> struct Box { T *p; };\ntemplate<class A, class B> struct Pair { A *a; B *b; };\n"
+                      "template<int N, class T> struct Ring { T *items[N + 1]; };\n")
+XSCAL = ["int", "double", "char", "float", "bool", "unsigned int"]
+
+
+def x_base(rng, depth):
+    """a named type: scalar, class, or a template-id whose arguments are themselves type-ids (function types, member pointers, template-ids)"""
+    r = rng.random()
+    if depth <= 0 or r < 0.35:
+        return rng.choice(XSCAL + STRUCTS)
+    if r < 0.6:
+        return "Box<%s >" % x_tid(rng, depth - 1, arg=True).replace("@", "").strip()
+    if r < 0.8:
+        return "Pair<%s, %s >" % (x_tid(rng, depth - 1, arg=True).replace("@", "").strip(), x_tid(rng, depth - 1, arg=True).replace("@", "").strip())
+    n = rng.choice(["3", "1 + 2", "sizeof(Box<%s >)" % rng.choice(XSCAL), "(sizeof(Box<%s >) > 1)" % rng.choice(XSCAL), "(2 > 1)", "(4 >> 1)"])
+    return "Ring<%s, %s >" % (n, x_tid(rng, depth - 1, arg=True).replace("@", "").strip())
+
+
+def x_params(rng, depth):
+    ps = rng.choice([[], ["int"], ["int"], ["int", "double"], None, None])
+    if ps is None:
+        ps = [x_tid(rng, depth - 1, param=True).replace("@", "").strip() for _ in range(rng.choice([1, 2, 3]))]
+    return ", ".join(ps)
+
+
+def x_tid(rng, depth, arg=False, param=False, top=False):
+    """a type-id with `@` where the declared name goes; arg: usable as a template type argument; param: as a parameter type"""
+    r = rng.random()
+    # (known findings, probed in run_extended_known and kept out of the generated stream: inside a template argument the abstract declarators
+    #  `T *(*)(..)` and `R (C::*)(..)` are not understood; a pointer to a data member `T C::*` is recorded as a plain pointer)
+    ret = rng.choice(["int", "void", "double", "bool"]) if rng.random() < 0.6 or depth <= 0 else x_base(rng, depth - 1) + ("" if arg else " *")
+    if ret in STRUCTS:
+        ret = "int"       # `ClassName (` at the start of a declaration: known finding classname-paren-declarator
+    if arg and 0.7 <= r < 0.92:
+        r = rng.choice([0.1, 0.4, 0.6, 0.95])
+    if 0.85 <= r < 0.92:
+        r = 0.8
+    if r < 0.3:
+        return "%s @" % x_base(rng, depth)
+    if r < 0.45:
+        return "%s *@" % x_base(rng, depth)
+    if r < 0.55 and (param or top):
+        return "const %s &@" % x_base(rng, depth)
+    if r < 0.7:
+        return "%s (*@)(%s)" % (ret, x_params(rng, depth))
+    if r < 0.85:
+        # pointers to member functions of different classes with the same signature are different types
+        return "%s (%s::*@)(%s)%s" % (ret, rng.choice(STRUCTS), x_params(rng, depth), rng.choice(["", "", " const"]))
+    if r < 0.92:
+        return "%s %s::*@" % (rng.choice(XSCAL), rng.choice(STRUCTS))
+    if arg:
+        return "%s @(%s)" % (ret, x_params(rng, depth))       # a function type as a template argument
+    return "%s *@" % x_base(rng, depth)
+
+
+def run_extended(ck, wd, bdir, n, tag):
+    """template-ids with type-id arguments, pointers to members: printed text against the written one under g++ (no Lean model: see PARTIAL)"""
+    rng = ck.rng
+    decls = []
+    for i in range(n):
+        kind = rng.choice(["var", "typedef", "func"])
+        name = {"var": "xv%d", "typedef": "XT%d", "func": "xf%d"}[kind] % i
+        if kind == "func":
+            ret = rng.choice(["void", "int", x_base(rng, 2), x_base(rng, 2) + " *"])
+            ps = [x_tid(rng, 2, param=True).replace("@", rng.choice(["", "a%d" % k])).strip() for k in range(rng.choice([1, 1, 2, 3]))]
+            written = "%s %s(%s);" % (ret, name, ", ".join(ps))
+        else:
+            written = {"var": "extern %s;", "typedef": "typedef %s;"}[kind] % x_tid(rng, 3, top=True).replace("@", name)
+        decls.append({"kind": kind, "name": name, "written": written})
+    keep = []
+    rc, err = gxx(wd, XPRELUDE + "\n".join(d["written"] for d in decls) + "\n")
+    for d in decls:
+        if rc == 0 or gxx(wd, XPRELUDE + d["written"] + "\n")[0] == 0:
+            keep.append(d)
+        else:
+            ck.extra["extended_rejected_by_gxx"] = ck.extra.get("extended_rejected_by_gxx", 0) + 1
+    decls = keep
+    hdr = XPRELUDE + "".join("// CHECK: x\n%s\n" % d["written"] for d in decls)
+    hp = wd / ("xdecl_%s.h" % tag)
+    hp.write_text(hdr)
+    rc, so, se = iglib.sh([str(bdir / "bin" / "parse_file"), "-T", hp.name], cwd=str(wd), timeout=300)
+    head = se.split("Finished parsing")[0] if "Finished parsing" in se else se
+    ck.search_case("accepts-valid-declarations")
+    if "Error in parsing" in se or rc not in (0, 1) or re.search(r"\b(error|warning)\b", head):
+        bad = []
+        for d in decls:
+            (wd / "one.h").write_text(XPRELUDE + d["written"] + "\n")
+            rc1, so1, se1 = iglib.sh([str(bdir / "bin" / "parse_file"), "one.h"], cwd=str(wd), timeout=60)
+            if rc1 != 0 or re.search(r"\b(error|warning)\b", se1.split("Finished parsing")[0]):
+                bad.append(d)
+                ck.violation("rejects-valid:extended", "parse_file reports an error or warning on the valid declaration `%s`" % d["written"],
+                             {"decl.h": XPRELUDE + d["written"] + "\n"}, se1[-2000:])
+                if len(bad) >= 3:
+                    break
+        decls = [d for d in decls if d not in bad]
+        hdr = XPRELUDE + "".join("// CHECK: x\n%s\n" % d["written"] for d in decls)
+        hp.write_text(hdr)
+        rc, so, se = iglib.sh([str(bdir / "bin" / "parse_file"), "-T", hp.name], cwd=str(wd), timeout=300)
+    actual = [re.sub(r"\b(?:struct|class) (\w+(?:< .*? >)?) \{[^{}]*\}", r"\1", a) for a in re.findall(r"^actual: (.*)$", se, re.M)]
+    if len(actual) != len(decls):
+        ck.violation("parse-file-T-count", "parse_file -T printed %d declarations for %d written" % (len(actual), len(decls)), {hp.name: hdr}, se[-3000:])
+        return
+
+    def probe(d, a):
+        pn = d["name"] + "_p"
+        one = d["written"] + "\n" + rename(a, d["name"], pn) + ";\n"
+        if d["kind"] == "typedef":
+            return one + 'static_assert(std::is_same<%s, %s>::value, "%s");\n' % (d["name"], pn, d["name"])
+        return one + 'static_assert(std::is_same<decltype(%s), decltype(%s)>::value, "%s");\n' % (d["name"], pn, d["name"])
+    rc, err = gxx(wd, "#include <type_traits>\n" + XPRELUDE + "".join(probe(d, a) for d, a in zip(decls, actual)))
+    nbad = 0
+    for d, a in zip(decls, actual):
+        ck.search_case("printed-type-is-written-type")
+        feats = [f for f, pat in (("member-pointer", "::*"), ("template-id", "<"), ("function-type-argument", "> (")) if pat in d["written"]] or ["plain"]
+        ok = rc == 0 or gxx(wd, "#include <type_traits>\n" + XPRELUDE + probe(d, a), "one.cpp")[0] == 0
+        ck.corr_case("extended-printed-vs-written (g++ is_same)", d["written"], ok, detail="`%s` is printed as `%s`" % (d["written"], a), nontrivial=True, feature=feats)
+        if not ok:
+            nbad += 1
+            if nbad <= 3:
+                ck.violation("printed-differs:extended", "`%s` is printed as `%s`, which g++ does not accept as the same type" % (d["written"], a),
+                             {"decl.h": XPRELUDE + "// CHECK: x\n" + d["written"] + "\n", "check.cpp": "#include <type_traits>\n" + XPRELUDE + probe(d, a)}, "")
+
+
+def run_extended_known(ck, wd, bdir):
+    probes = [("known:data-member-pointer", "void f1(bool S0::*a);\n", r"S0::\*",
+               "a pointer to a data member loses its class: `void f1(bool S0::*a);` is printed `%s` (r_unroll_type turns IIT_scoped_pointer into a plain "
+               "CPPPointerType unless the pointee is a function type; there is no type node for pointers to data members)"),
+              ("known:abstract-declarator-template-argument", "extern Box<void (S0::*)() > v3;\nextern Box<char * (*)(int) > v6;\n", r"S0::\*\)\(void\) >",
+               "inside a template argument the abstract declarators `R (C::*)(..)` and `T *(*)(..)` are not understood ('invalid type' warning; the argument "
+               "becomes `unknown`): `extern Box<void (S0::*)() > v3;` is printed `%s` (empty_instance_identifier in cppBison.yxx has no production for them; "
+               "repairing it means changing the grammar and regenerating the prebuilt parser)")]
+    for key, src, must, what in probes:
+        text = XPRELUDE + "".join("// CHECK: x\n%s\n" % l for l in src.strip().split("\n"))
+        (wd / "known.h").write_text(text)
+        rc, so, se = iglib.sh([str(bdir / "bin" / "parse_file"), "-T", "known.h"], cwd=str(wd), timeout=60)
+        actual = [re.sub(r"\b(?:struct|class) (\w+(?:< .*? >)?) \{[^{}]*\}", r"\1", a) for a in re.findall(r"^actual: (.*)$", se, re.M)]
+        ck.search_case("known-limit-probe")
+        if actual and not re.search(must, actual[0]):
+            ck.violation(key, what % actual[0], {"known.h": text}, se[-1500:])
+
+
 def run_stub_headers(ck, bdir):
     """every shipped parser-inc stub header that g++ accepts must parse with zero errors"""
     inc = iglib.REPO / "parser-inc"
@@ -166,14 +307,17 @@ def run(ck):
                "unroll+printer, and against the written one under g++ std::is_same; (lookup) generated namespace/class/base/typedef programs with "
                "shadowed names: the entity each unqualified name resolves to against the Lean findType model and against g++ (out-of-class "
                "definitions, static_assert on typedef targets and member types); (templates) class templates with type and non-type arguments, "
-               "instantiated: printed member types and prototypes against g++; (acceptance) parser-inc stub headers accepted by g++ must parse. "
+               "instantiated: printed member types and prototypes against g++; (extended) template-ids whose arguments are type-ids (function types, member pointers, nested template-ids, constant expressions with '>' and sizeof) and pointers to data/function members of several classes: printed text against g++ only; (acceptance) parser-inc stub headers accepted by g++ must parse. "
                "distinct = distinct declaration text / program")
     try:
         for r in range(2 if quick else 30):
             run_declarators(ck, wd, bdir, 150 if quick else 400, 4 if quick else 6, "r%d" % r)
+        for r in range(2 if quick else 40):
+            run_extended(ck, wd, bdir, 60 if quick else 150, "x%d" % r)
         scopegen.run_scopes(ck, wd, bdir, 12 if quick else 200)
         scopegen.run_templates(ck, wd, bdir, 8 if quick else 120)
         scopegen.run_known(ck, wd, bdir)
+        run_extended_known(ck, wd, bdir)
         run_stub_headers(ck, bdir)
     finally:
         shutil.rmtree(wd, ignore_errors=True)
